@@ -33,6 +33,12 @@
 (* keepalive: ConnectionDown raised, socket shut down, still in the loop's    *)
 (* list) or "half" (a send failed: disconnect(defer_event=True) - out of the  *)
 (* registry, socket shut down, ConnectionDown still owed) -> "closed".        *)
+(* "orphan": an up connection whose place in the registry (a dict keyed by    *)
+(* datapath id) was taken by a newer connection of a switch with the same     *)
+(* datapath id - nexus._connect() just overwrites the entry.  The old         *)
+(* connection stays open and in the loop's select list, but keepalive, which  *)
+(* walks the registry, never looks at it again (OrphanNeverProbed below; see  *)
+(* notes/X04.md).                                                             *)
 (*                                                                            *)
 (* DEVIATION (defect, see notes/X04.md): con.send() on a broken socket ends   *)
 (* in con.disconnect(), which removes con from nexus.connections WHILE        *)
@@ -43,7 +49,8 @@
 (* Strict = TRUE turns the deviation off (the tick carries on).               *)
 EXTENDS Naturals, Sequences, FiniteSets, TLC, Json, TimerLib
 
-CONSTANTS Conns,    \* connection ids (= the datapath id of the switch behind it)
+CONSTANTS Conns,    \* connection ids
+          Dpid,     \* [Conns -> datapath id of the switch behind the connection]
           I,        \* --interval
           TO,       \* --timeout
           Late,     \* how late the scheduler may serve the timer
@@ -95,12 +102,19 @@ Accept(c) ==
   /\ UNCHANGED <<now, kt, nticks, reg, pend, lastEcho, sockbad, ndown>>
   /\ Log("Accept", [c |-> c], [wrote |-> <<"HELLO">>])
 
+\* nexus._connect(con): _connections[con.dpid] = con - a new key goes to the end of the dict, an existing key
+\* keeps its place and silently loses its old connection
 Handshake(c) ==
   /\ cst[c] = "hs"
-  /\ cst' = [cst EXCEPT ![c] = "up"] /\ idle' = [idle EXCEPT ![c] = now]
-  /\ reg' = Append(reg, c)
-  /\ UNCHANGED <<now, kt, nticks, pend, lastEcho, sockbad, ndown>>
-  /\ Log("Handshake", [c |-> c], [up |-> 1, idle |-> now, reg |-> Registered \cup {c}])
+  /\ LET old == {x \in Registered : Dpid[x] = Dpid[c]} IN
+     /\ cst' = [x \in Conns |-> IF x = c THEN "up" ELSE IF x \in old THEN "orphan" ELSE cst[x]]
+     /\ idle' = [x \in Conns |-> IF x = c THEN now ELSE IF x \in old THEN 0 ELSE idle[x]]
+     /\ pend' = [x \in Conns |-> IF x \in old THEN 0 ELSE pend[x]]        \* (bookkeeping of an orphan: reset)
+     /\ lastEcho' = [x \in Conns |-> IF x \in old THEN 0 ELSE lastEcho[x]]
+     /\ sockbad' = [x \in Conns |-> IF x \in old THEN FALSE ELSE sockbad[x]]
+     /\ reg' = IF old = {} THEN Append(reg, c) ELSE [k \in DOMAIN reg |-> IF reg[k] \in old THEN c ELSE reg[k]]
+     /\ UNCHANGED <<now, kt, nticks, ndown>>
+     /\ Log("Handshake", [c |-> c], [up |-> 1, idle |-> now, reg |-> (Registered \ old) \cup {c}])
 
 TimerWaits == kt.st = "armed" /\ ~kt.cancelled
 Tick ==
@@ -129,14 +143,14 @@ SockBreak(c) ==
   /\ Log("SockBreak", [c |-> c], [x |-> 0])
 
 PeerClose(c) ==
-  /\ cst[c] \in {"hs", "up"}
+  /\ cst[c] \in {"hs", "up", "orphan"}
   /\ cst' = [cst EXCEPT ![c] = "closed"]
-  /\ reg' = Without(reg, {c})
-  /\ ndown' = [ndown EXCEPT ![c] = IF cst[c] = "up" THEN @ + 1 ELSE @]
+  /\ reg' = Without(reg, {c})                                    \* (an orphan is not in it: nothing is removed)
+  /\ ndown' = [ndown EXCEPT ![c] = IF cst[c] \in {"up", "orphan"} THEN @ + 1 ELSE @]
   /\ idle' = [idle EXCEPT ![c] = 0] /\ pend' = [pend EXCEPT ![c] = 0] /\ lastEcho' = [lastEcho EXCEPT ![c] = 0]
   /\ sockbad' = [sockbad EXCEPT ![c] = FALSE]                     \* (bookkeeping of a closed connection: reset)
   /\ UNCHANGED <<now, kt, nticks>>
-  /\ Log("PeerClose", [c |-> c], [down |-> IF cst[c] = "up" THEN 1 ELSE 0, reg |-> Registered \ {c}])
+  /\ Log("PeerClose", [c |-> c], [down |-> IF cst[c] \in {"up", "orphan"} THEN 1 ELSE 0, reg |-> Registered \ {c}])
 
 Reap(c) ==
   /\ cst[c] \in {"shut", "half"}
@@ -215,8 +229,28 @@ Next == Launch \/ AcceptAny \/ HandshakeAny \/ Tick \/ AnswerAny \/ ChatterAny \
 Spec == Init /\ [][Next]_vars
 
 ----------------------------------------------------------------------------
+(* A later starting point for the export with more connections: keepalive launched and every connection    *)
+(* accepted and up at time 0, registered in any order p - i.e. the state after the prefix kept in hist      *)
+(* (Launch, Accept(p[1..n]), Handshake(p[1..n])); from there only the steps that matter to a tick.          *)
+NC == Cardinality(Conns)
+Perms == {p \in [1..NC -> Conns] : \A i, j \in 1..NC : i # j => p[i] # p[j]}
+SetupHist(p) ==
+  <<[a |-> "Launch", args |-> [x |-> 0], exp |-> [timers |-> 1]]>>
+  \o [i \in 1..NC |-> [a |-> "Accept", args |-> [c |-> p[i]], exp |-> [wrote |-> <<"HELLO">>]]]
+  \o [i \in 1..NC |-> [a |-> "Handshake", args |-> [c |-> p[i]],
+                       exp |-> [up |-> 1, idle |-> 0, reg |-> {p[j] : j \in 1..i}]]]
+InitUp ==
+  \E p \in Perms :
+    /\ now = 0 /\ nticks = 0 /\ reg = p
+    /\ kt = Started([NoTimer EXCEPT !.st = "new", !.d = I, !.rec = TRUE, !.ss = TRUE], 0)
+    /\ cst = [c \in Conns |-> "up"] /\ idle = [c \in Conns |-> 0] /\ pend = [c \in Conns |-> 0]
+    /\ lastEcho = [c \in Conns |-> 0] /\ sockbad = [c \in Conns |-> FALSE] /\ ndown = [c \in Conns |-> 0]
+    /\ hist = SetupHist(p) /\ last = hist[Len(hist)]
+NextUp == Tick \/ AnswerAny \/ SockBreakAny \/ ReapAny \/ Run
+
+----------------------------------------------------------------------------
 (* The properties, over the real variables.                                  *)
-States == {"none", "hs", "up", "shut", "half", "closed"}
+States == {"none", "hs", "up", "orphan", "shut", "half", "closed"}
 TypeOK ==
   /\ now \in 0..MaxNow /\ cst \in [Conns -> States] /\ nticks \in Nat
   /\ \A c \in Conns : idle[c] \in 0..MaxNow /\ pend[c] \in Nat /\ ndown[c] \in 0..1
@@ -249,8 +283,11 @@ EchoOnlyIfUp == [][\A c \in Conns : GotEcho(c) => /\ cst[c] = "up" /\ cst'[c] = 
                                                   /\ (lastEcho[c] > 0 => now - (lastEcho[c] - 1) >= I)]_vars
 \* ConnectionDown exactly once for a connection that was up and is gone (owed while "half")
 DownOnce == \A c \in Conns : /\ (cst[c] = "shut" => ndown[c] = 1)
-                             /\ (cst[c] \in {"none", "hs", "up", "half"} => ndown[c] = 0)
+                             /\ (cst[c] \in {"none", "hs", "up", "orphan", "half"} => ndown[c] = 0)
                              /\ ndown[c] <= 1
+\* what keepalive does NOT cover: a connection that lost its registry entry to a newer one is never probed and
+\* never timed out, however silent - only its peer closing ends it
+OrphanNeverProbed == [][\A c \in Conns : cst[c] = "orphan" => (cst'[c] \in {"orphan", "closed"} /\ ~GotEcho(c))]_vars
 \* the timer rule: ticks are an interval apart (never early)
 TicksSpaced == [][nticks' # nticks => (IsDue(kt, now) /\ (kt'.st = "armed" => kt'.next = now + I))]_vars
 \* holds only with Strict = TRUE: keepalive keeps running
